@@ -2,9 +2,20 @@
    Model: Model/ExtraDims.v.  A state is (format id, extra dimensions, per record: standard bytes and name -> raw bytes,
    VLR list); operations Add params | Remove names | Assign name raw-values | AssignStd raw-blocks |
    SetPoints format record-bytes (las.points = a record carrying its own PointFormat: a copy, the record of another
-   LasData or of a re-read file, with any number of points) | RoundTrip.
+   LasData or of a re-read file, with any number of points) | RoundTrip | Convert target-format standard-blocks
+   (laspy.convert; what becomes of the standard dimensions is C12, the blocks are universally quantified here) |
+   Reread keep (a file whose extra-bytes VLR registers only the first k extra dimensions, or that has no such VLR, is
+   read: the bytes no descriptor registers become ONE opaque dimension "ExtraBytes").
+   Histories start from a fresh LasData (init) or from one made from a PointFormat that already carries extra
+   dimensions (init_ex: laspy.create(point_format=fmt), LasHeader(point_format=fmt)).
+   Inv = base invariant (record layout = format, legal parameters, distinct non-standard names) + (I3) the extra-bytes
+   VLR describes exactly the current dimensions; Inv2 = base invariant + ((I3) or "the VLR describes all dimensions but
+   the last, which is the reader's ExtraBytes"): what holds between reading a file with un-registered bytes and the
+   next add / remove / conversion.
    `ops_okb s ops` is the one hypothesis on inputs: the names an Add introduces are pairwise different, are not current
-   extra dimensions and are not standard dimension names of the format (laspy fails inside numpy on a duplicate name
+   extra dimensions and are not standard dimension names of the format; no extra dimension is called like a standard
+   dimension of the target format of a Convert; the name "ExtraBytes" a truncated Reread introduces is new and at most
+   255 bytes stay un-registered (laspy fails inside numpy on a duplicate name
    after the header was already changed — DESIGN section 6, observation 13 — so nothing is claimed there).
    Add also requires legal parameters (edim_okb: one of the 30 types, scaled or not, or an opaque array of 4..255
    bytes; name of 1..32 bytes, description of 0..32 bytes, no NUL); an Add outside that domain is refused by the model
@@ -16,71 +27,114 @@ Import ListNotations.
 Open Scope list_scope.
 Open Scope Z_scope.
 
-(* the invariant (record layout = format, legal and distinct names, exactly-one-VLR) holds after every history,
-   of any length, from any state that satisfies it ... *)
-Theorem C13_inv : forall ops s, Inv s -> ops_okb s ops = true -> Inv (run s ops).
-Proof. exact run_inv. Qed.
+(* the invariant holds after every history, of any length, from any state that satisfies it: the base part and
+   "(I3) or trailing un-registered bytes" always ... *)
+Theorem C13_inv : forall ops s, Inv2 s -> ops_okb s ops = true -> Inv2 (run s ops).
+Proof. exact run_inv2. Qed.
 Print Assumptions C13_inv.
 
-(* ... in particular from a fresh LasData of any point format with any standard bytes and any foreign VLRs *)
+(* ... the full invariant, (I3) included, as long as no file with un-registered bytes is read ... *)
+Theorem C13_inv_full : forall ops s, Inv s -> ops_okb s ops = true -> (forall o, In o ops -> op_rereads o = false) ->
+  Inv (run s ops).
+Proof. exact run_inv. Qed.
+Print Assumptions C13_inv_full.
+
+(* ... and, whatever was read before, again after the next successful add / remove / conversion *)
+Theorem C13_inv_restored : forall s ops o, Inv2 s -> ops_okb s (ops ++ [o]) = true -> op_syncs o = true ->
+  snd (step (run s ops) o) = Ok tt -> Inv (run s (ops ++ [o])).
+Proof. exact run_sync_inv. Qed.
+Print Assumptions C13_inv_restored.
+
+(* histories start from a fresh LasData of any point format with any standard bytes and any foreign VLRs ... *)
 Theorem C13_init : forall fmt stds vl std, std_size fmt = Some std -> 0 <= std ->
   (forall b, In b stds -> len b = std) -> filter is_eb_vlr vl = [] -> Inv (init fmt stds vl).
 Proof. exact init_inv. Qed.
 Print Assumptions C13_init.
 
+(* ... or from a LasData / header made from a PointFormat that already carries extra dimensions: the extra-bytes VLR
+   is there from the start (also for the empty history), before or after the foreign VLRs *)
+Theorem C13_init_with_dimensions : forall fmt ex recs vl eb_last std, std_size fmt = Some std ->
+  forallb edim_okb ex = true -> nodupb (extra_names ex) = true ->
+  forallb (fun n => negb (mem_name n (std_names fmt))) (extra_names ex) = true ->
+  (forall b, In b recs -> len b = std + extras_size ex) -> filter is_eb_vlr vl = [] ->
+  exists s, init_ex fmt ex recs vl eb_last = Ok s /\ Inv s /\ st_fmt s = fmt /\ st_extras s = ex
+            /\ map rec_bytes (st_recs s) = recs /\ filter not_eb (st_vlrs s) = vl.
+Proof. exact init_ex_inv. Qed.
+Print Assumptions C13_init_with_dimensions.
+
 (* (I2) after any history every record is exactly standard size + the sizes of the current extra dimensions *)
-Theorem C13_record_length : forall s ops, Inv s -> ops_okb s ops = true ->
-  exists std, std_size (st_fmt s) = Some std
+Theorem C13_record_length : forall s ops, Inv2 s -> ops_okb s ops = true ->
+  exists std, std_size (st_fmt (run s ops)) = Some std
               /\ forall r, In r (st_recs (run s ops)) -> len (rec_bytes r) = std + extras_size (st_extras (run s ops)).
 Proof. exact run_record_length. Qed.
 Print Assumptions C13_record_length.
 
-(* (I3) after any history: no extra-bytes VLR at all when there is no extra dimension; otherwise exactly one, whose
+(* (I3) spelled out: no extra-bytes VLR at all when there is no extra dimension; otherwise exactly one, whose
    payload is the concatenation of the 192-byte descriptors of the current dimensions in order, and decoding that
    payload as the reader does gives back exactly the current dimensions (names, types, scales, offsets, descriptions) *)
-Theorem C13_vlr_exactly_once : forall s ops, Inv s -> ops_okb s ops = true ->
-  match st_extras (run s ops) with
-  | [] => filter is_eb_vlr (st_vlrs (run s ops)) = []
-  | ex => exists p, filter is_eb_vlr (st_vlrs (run s ops)) = [eb_vlr p]
+Theorem C13_vlr_exactly_once : forall s, Inv s ->
+  match st_extras s with
+  | [] => filter is_eb_vlr (st_vlrs s) = []
+  | ex => exists p, filter is_eb_vlr (st_vlrs s) = [eb_vlr p]
                     /\ eb_payload ex = Ok p /\ len p = eb_struct_size * len ex
                     /\ dec_ebs (length p) p = Ok ex
   end.
-Proof. exact run_vlr. Qed.
+Proof. exact inv_vlr_spelled. Qed.
 Print Assumptions C13_vlr_exactly_once.
 
+(* the other case of Inv2 spelled out: the dimensions are reg ++ [ExtraBytes: n opaque bytes], 1 <= n <= 255, and
+   there is at most one extra-bytes VLR, which describes exactly reg (none at all only if reg is empty) *)
+Theorem C13_vlr_unregistered : forall s, Inv2 s -> ~ Inv s ->
+  exists reg n, st_extras s = reg ++ [unreg n] /\ 1 <= n <= 255
+    /\ match filter is_eb_vlr (st_vlrs s) with
+       | [] => reg = []
+       | [v] => exists p, v = eb_vlr p /\ eb_payload reg = Ok p /\ dec_ebs (length p) p = Ok reg
+       | _ => False
+       end.
+Proof. exact inv2_vlr_spelled. Qed.
+Print Assumptions C13_vlr_unregistered.
+
 (* the other VLRs are never touched by any operation and keep their order *)
-Theorem C13_other_vlrs_untouched : forall s o, Inv s ->
+Theorem C13_other_vlrs_untouched : forall s o, Inv2 s ->
   filter not_eb (st_vlrs (fst (step s o))) = filter not_eb (st_vlrs s).
 Proof. exact other_vlrs_step. Qed.
 Print Assumptions C13_other_vlrs_untouched.
 
-(* names stay pairwise different, never a standard name, parameters stay legal *)
-Theorem C13_names : forall s ops, Inv s -> ops_okb s ops = true ->
+(* names stay pairwise different, never a standard name of the current format, parameters stay legal *)
+Theorem C13_names : forall s ops, Inv2 s -> ops_okb s ops = true ->
   NoDup (extra_names (st_extras (run s ops)))
-  /\ (forall n, In n (extra_names (st_extras (run s ops))) -> ~ In n (std_names (st_fmt s)))
+  /\ (forall n, In n (extra_names (st_extras (run s ops))) -> ~ In n (std_names (st_fmt (run s ops))))
   /\ forallb edim_okb (st_extras (run s ops)) = true.
 Proof. exact run_names. Qed.
 Print Assumptions C13_names.
 
-(* (I1) one step: an extra dimension the operation does not name is still there and has the same raw bytes in
-   every record (reallocation copies raw bytes) ... *)
-Theorem C13_step_keeps_others : forall s o n, Inv s -> In n (extra_names (st_extras s)) -> ~ In n (op_names o) ->
-  In n (extra_names (st_extras (fst (step s o))))
-  /\ map (field_of n) (st_recs (fst (step s o))) = map (field_of n) (st_recs s).
+(* only a conversion changes the point format id *)
+Theorem C13_format_id : forall s o, Inv2 s -> (forall g stds, o <> Convert g stds) -> st_fmt (fst (step s o)) = st_fmt s.
+Proof. exact step_fmt. Qed.
+Print Assumptions C13_format_id.
+
+(* (I1) one step: an extra dimension the operation does not name has, if it is still there, the same raw bytes in
+   every record (reallocation, conversion and re-reading copy raw bytes) — and it IS still there unless the step reads
+   a file in which it is no longer registered (then its bytes are part of "ExtraBytes") ... *)
+Theorem C13_step_keeps_others : forall s o n, Inv2 s -> op_okb s o = true -> In n (extra_names (st_extras s)) ->
+  ~ In n (op_names o) ->
+  (In n (extra_names (st_extras (fst (step s o)))) ->
+   map (field_of n) (st_recs (fst (step s o))) = map (field_of n) (st_recs s))
+  /\ (op_rereads o = false -> In n (extra_names (st_extras (fst (step s o))))).
 Proof. exact step_frame. Qed.
 Print Assumptions C13_step_keeps_others.
 
 (* ... whole histories: a dimension no operation names keeps its values through any sequence of adds, removes,
-   assignments and round trips ... *)
-Theorem C13_others_keep_values : forall ops s n, Inv s -> ops_okb s ops = true -> In n (extra_names (st_extras s)) ->
+   assignments, conversions, round trips and truncated re-reads ... *)
+Theorem C13_others_keep_values : forall ops s n, Inv2 s -> ops_okb s ops = true -> In n (extra_names (st_extras s)) ->
   (forall o, In o ops -> ~ In n (op_names o)) ->
-  In n (extra_names (st_extras (run s ops)))
-  /\ map (field_of n) (st_recs (run s ops)) = map (field_of n) (st_recs s).
+  (In n (extra_names (st_extras (run s ops))) -> map (field_of n) (st_recs (run s ops)) = map (field_of n) (st_recs s))
+  /\ ((forall o, In o ops -> op_rereads o = false) -> In n (extra_names (st_extras (run s ops)))).
 Proof. exact run_frame. Qed.
 Print Assumptions C13_others_keep_values.
 
 (* ... and so do the bytes of the standard dimensions *)
-Theorem C13_standard_bytes_kept : forall ops s, Inv s -> ops_okb s ops = true ->
+Theorem C13_standard_bytes_kept : forall ops s, Inv2 s -> ops_okb s ops = true ->
   (forall o, In o ops -> op_touches_std o = false) ->
   map fst (st_recs (run s ops)) = map fst (st_recs s).
 Proof. exact run_std_bytes. Qed.
@@ -100,10 +154,52 @@ Proof. exact descriptor_roundtrip. Qed.
 Print Assumptions C13_descriptor_roundtrip.
 
 (* write then read gives back the very same state: names, types, scales, offsets, descriptions, order, the raw
-   values of every dimension in every record, and the VLR list *)
-Theorem C13_roundtrip : forall s, Inv s -> exists w, write_state s = Ok w /\ read_state w = Ok s.
+   values of every dimension in every record, and the VLR list — also for a state with un-registered bytes *)
+Theorem C13_roundtrip : forall s, Inv2 s -> exists w, write_state s = Ok w /\ read_state w = Ok s.
 Proof. exact roundtrip_id. Qed.
 Print Assumptions C13_roundtrip.
+
+(* reading a file whose extra-bytes VLR registers only the first k dimensions (Some k), or that has none (None):
+   the registered dimensions stay, in order, followed by ONE opaque dimension "ExtraBytes" of exactly the bytes that
+   are not registered (no such dimension when everything is registered); every point keeps all its bytes, the VLR
+   list is the file's *)
+Theorem C13_unregistered_bytes : forall s keep, Inv s -> op_okb s (Reread keep) = true ->
+  let kept := reread_kept keep (st_extras s) in
+  snd (step s (Reread keep)) = Ok tt
+  /\ st_extras (fst (step s (Reread keep))) = reread_extras kept (skipn (length kept) (st_extras s))
+  /\ st_vlrs (fst (step s (Reread keep))) = trunc_vlrs keep (st_vlrs s)
+  /\ map rec_bytes (st_recs (fst (step s (Reread keep)))) = map rec_bytes (st_recs s).
+Proof. exact reread_extras_spec. Qed.
+Print Assumptions C13_unregistered_bytes.
+
+(* the same from any reachable state (un-registered bytes already there): outcome, invariant, format id, VLRs, bytes;
+   the new dimensions are a prefix of the old ones plus at most the one opaque dimension, and the records are the old
+   bytes cut by the new format *)
+Theorem C13_reread : forall s keep, Inv2 s -> op_okb s (Reread keep) = true ->
+  Inv2 (fst (do_reread s keep)) /\ snd (do_reread s keep) = Ok tt
+  /\ st_fmt (fst (do_reread s keep)) = st_fmt s
+  /\ st_vlrs (fst (do_reread s keep)) = trunc_vlrs keep (st_vlrs s)
+  /\ map rec_bytes (st_recs (fst (do_reread s keep))) = map rec_bytes (st_recs s)
+  /\ exists std kept tail, std_size (st_fmt s) = Some std /\ st_extras (fst (do_reread s keep)) = kept ++ tail
+       /\ (exists rest', st_extras s = kept ++ rest')
+       /\ (tail = [] \/ exists n, tail = [unreg n])
+       /\ st_recs (fst (do_reread s keep)) = map (split_rec std (kept ++ tail)) (map rec_bytes (st_recs s)).
+Proof. exact reread_inv2. Qed.
+Print Assumptions C13_reread.
+
+(* conversion to another point format (any standard blocks of the target size): the extra dimensions stay what they
+   are — names, types, scales, offsets, descriptions, order —, every one keeps its raw values in every record, the
+   extra-bytes VLR is rebuilt from them ((I3) holds, whatever the VLR was), the other VLRs stay, the record length is
+   that of the new format (Inv) *)
+Theorem C13_convert : forall s g stds gstd, Inv2 s -> op_okb s (Convert g stds) = true -> std_size g = Some gstd ->
+  length stds = length (st_recs s) -> (forall v, In v stds -> len v = gstd /\ bytes_ok v = true) ->
+  Inv (fst (step s (Convert g stds))) /\ snd (step s (Convert g stds)) = Ok tt
+  /\ st_extras (fst (step s (Convert g stds))) = st_extras s /\ st_fmt (fst (step s (Convert g stds))) = g
+  /\ map fst (st_recs (fst (step s (Convert g stds)))) = stds
+  /\ (forall n, map (field_of n) (st_recs (fst (step s (Convert g stds)))) = map (field_of n) (st_recs s))
+  /\ filter not_eb (st_vlrs (fst (step s (Convert g stds)))) = filter not_eb (st_vlrs s).
+Proof. exact convert_ok. Qed.
+Print Assumptions C13_convert.
 
 (* the header reader of the LAS file model (Model/Las.v, dec_header) derives from the VLR this model writes exactly
    the size of the extra dimensions *)
@@ -120,24 +216,25 @@ Theorem C13_remove_bad : forall s names,
 Proof. exact remove_bad. Qed.
 Print Assumptions C13_remove_bad.
 
-Theorem C13_remove_standard : forall s names n, Inv s -> In n (std_names (st_fmt s)) -> In n names ->
+Theorem C13_remove_standard : forall s names n, Inv2 s -> In n (std_names (st_fmt s)) -> In n names ->
   step s (Remove names) = (s, Err ELaspy).
 Proof. exact remove_standard. Qed.
 Print Assumptions C13_remove_standard.
 
-(* accepted operations do what they say *)
-Theorem C13_remove_ok : forall s names, Inv s -> (forall n, In n names -> In n (extra_names (st_extras s))) -> NoDup names ->
+(* accepted operations do what they say (and leave (I3) holding) *)
+Theorem C13_remove_ok : forall s names, Inv2 s -> (forall n, In n names -> In n (extra_names (st_extras s))) -> NoDup names ->
   snd (step s (Remove names)) = Ok tt
-  /\ st_extras (fst (step s (Remove names))) = filter (fun d => negb (mem_name (ed_name d) names)) (st_extras s).
+  /\ st_extras (fst (step s (Remove names))) = filter (fun d => negb (mem_name (ed_name d) names)) (st_extras s)
+  /\ Inv (fst (step s (Remove names))).
 Proof. exact remove_ok. Qed.
 Print Assumptions C13_remove_ok.
 
-Theorem C13_add_ok : forall s ps, Inv s -> forallb edim_okb ps = true ->
+Theorem C13_add_ok : forall s ps, Inv2 s -> forallb edim_okb ps = true ->
   snd (step s (Add ps)) = Ok tt /\ st_extras (fst (step s (Add ps))) = st_extras s ++ ps.
 Proof. exact add_ok. Qed.
 Print Assumptions C13_add_ok.
 
-Theorem C13_assign_reads_back : forall s n vals, Inv s -> snd (step s (Assign n vals)) = Ok tt ->
+Theorem C13_assign_reads_back : forall s n vals, Inv2 s -> snd (step s (Assign n vals)) = Ok tt ->
   map (field_of n) (st_recs (fst (step s (Assign n vals)))) = map Some vals.
 Proof. exact assign_reads_back. Qed.
 Print Assumptions C13_assign_reads_back.
@@ -146,7 +243,7 @@ Print Assumptions C13_assign_reads_back.
    record of a re-read file ...): a record whose own format compares equal (PointFormat.__eq__) is taken byte for
    byte, with any number of points, format and VLRs stay — and because C13_inv, C13_add_ok, C13_remove_ok quantify
    over histories that contain SetPoints, the adds / removes that follow behave as after any other step *)
-Theorem C13_set_points_ok : forall s ex recs std, Inv s -> std_size (st_fmt s) = Some std -> recs_okb std ex recs = true ->
+Theorem C13_set_points_ok : forall s ex recs std, Inv2 s -> std_size (st_fmt s) = Some std -> recs_okb std ex recs = true ->
   fmt_eqv ex (st_extras s) = true ->
   snd (step s (SetPoints ex recs)) = Ok tt
   /\ st_extras (fst (step s (SetPoints ex recs))) = st_extras s
@@ -156,7 +253,7 @@ Proof. exact set_points_ok. Qed.
 Print Assumptions C13_set_points_ok.
 
 (* in particular a record of the very same extra dimensions (no NaN among scales / offsets) is always accepted *)
-Theorem C13_set_points_same_format : forall s recs std, Inv s -> std_size (st_fmt s) = Some std ->
+Theorem C13_set_points_same_format : forall s recs std, Inv2 s -> std_size (st_fmt s) = Some std ->
   forallb no_nan_scales (st_extras s) = true -> recs_okb std (st_extras s) recs = true ->
   snd (step s (SetPoints (st_extras s) recs)) = Ok tt
   /\ st_extras (fst (step s (SetPoints (st_extras s) recs))) = st_extras s
@@ -201,5 +298,28 @@ Example C13_nonvacuous :
       /\ map (fun v => (v_rid v, len (v_data v))) (st_vlrs s2) = [(7, 3); (4, 384)])
   /\ step s1 (SetPoints [A] [repeat 7 44%nat]) = (s1, Err ELaspy)
   /\ st_vlrs (run s1 [Remove [[97]; [99]]; RoundTrip]) = [foreign]
-  /\ map rec_bytes (st_recs (run s1 [Remove [[99]; [97]]])) = [repeat 1 20%nat; repeat 2 20%nat].
+  /\ map rec_bytes (st_recs (run s1 [Remove [[99]; [97]]])) = [repeat 1 20%nat; repeat 2 20%nat]
+  (* conversion to point format 1 (28 standard bytes): dimensions, values and the VLR stay; the scaled one keeps its scales *)
+  /\ (let s3 := run s1 [Convert 1 [repeat 5 28%nat; repeat 6 28%nat]] in
+      ops_okb s1 [Convert 1 [repeat 5 28%nat; repeat 6 28%nat]] = true
+      /\ st_fmt s3 = 1 /\ st_extras s3 = [A; C] /\ map (field_of [99]) (st_recs s3) = map Some big
+      /\ map (fun r => len (rec_bytes r)) (st_recs s3) = [28 + 24 + 8; 28 + 24 + 8]
+      /\ map (fun v => (v_rid v, len (v_data v))) (st_vlrs s3) = [(7, 3); (4, 384)])
+  (* a file in which only the first dimension is registered: a, then 8 un-registered bytes as "ExtraBytes"; the next
+     add registers them; a file without any extra-bytes VLR: all 32 bytes are "ExtraBytes" *)
+  /\ (let s4 := run s1 [Reread (Some 1)] in
+      ops_okb s1 [Reread (Some 1); Add [B]; Reread None] = true
+      /\ st_extras s4 = [A; unreg 8] /\ map rec_bytes (st_recs s4) = map rec_bytes (st_recs s1)
+      /\ map (fun v => (v_rid v, len (v_data v))) (st_vlrs s4) = [(7, 3); (4, 192)]
+      /\ map (field_of UNREG_NAME) (st_recs s4) = map Some big
+      /\ step s4 RoundTrip = (s4, Ok tt)
+      /\ st_extras (run s4 [Add [B]]) = [A; unreg 8; B]
+      /\ map (fun v => (v_rid v, len (v_data v))) (st_vlrs (run s4 [Add [B]])) = [(7, 3); (4, 576)]
+      /\ st_extras (run s1 [Reread None]) = [unreg 32] /\ st_vlrs (run s1 [Reread None]) = [foreign])
+  (* a LasData made from a format that already has the two dimensions: the VLR is there, before the foreign one *)
+  /\ (match init_ex 0 [A; C] [repeat 3 52%nat] [foreign] false with
+      | Ok s5 => map (fun v => (v_rid v, len (v_data v))) (st_vlrs s5) = [(4, 384); (7, 3)]
+                 /\ map (field_of [99]) (st_recs s5) = [Some (repeat 3 8%nat)] /\ step s5 RoundTrip = (s5, Ok tt)
+      | Err _ => False
+      end).
 Proof. vm_compute. repeat split; reflexivity. Qed.
